@@ -239,6 +239,8 @@ def cases(tier):
         yield ("faults", mi)
     for cons1 in sorted(SIG.table("csv")):
         yield ("shared", cons1)
+    for mi in range(len(c11.MODELS)):
+        yield ("edited", mi)
 
 
 def _setup_dir(libset):
@@ -492,6 +494,101 @@ def _run_shared(case):
     return {"evals": max(evals, 1), "nontrivial": evals, "judged": judged, "viols": viols, "outcomes": outcomes, "sample": sample}
 
 
+def _run_edited(case):
+    """acceptance depends on the CURRENT model only: load, run, edit through the documented API (del program.commands[x], add_command), run
+    again; the outcome must equal the outcome of a fresh program that received the same edit before its first run"""
+    from mpilot.exceptions import MPilotError
+    from mpilot.program import Program
+
+    _, mi = case
+    work = _setup_dir("csv")
+    with open(os.path.join(work, "input.csv"), "w") as f:
+        f.write("A,B\n10,5\n8,-9999\n7,3\n5,10\n2,8\n")
+    _wrap_all()
+    model = c11.MODELS[mi]
+    text = G.render(G.items_of(model))[0]
+    names = [c[0] for c in model]
+    reads = [c[0] for c in model if c[1] == "EEMSRead"]
+    viols, outcomes = [], {}
+    evals = judged = 0
+    sample = None
+
+    def edits():
+        for x in names:
+            yield ("del", x)
+            base = [r for r in reads if r != x]
+            if base:
+                yield ("replace-by-nonfuzzy", x, base[0])
+                yield ("replace-by-fuzzy", x, base[0])
+        yield ("add-consumer-of-missing", "NoSuchResult")
+
+    def apply(p, e):
+        lib = p.command_library
+        if e[0] == "del":
+            del p.commands[e[1]]
+        elif e[0] == "replace-by-nonfuzzy":
+            del p.commands[e[1]]
+            p.add_command(lib["Copy"], e[1], {"InFieldName": e[2]})
+        elif e[0] == "replace-by-fuzzy":
+            del p.commands[e[1]]
+            p.add_command(lib["CvtToFuzzy"], e[1], {"InFieldName": e[2], "TrueThreshold": 10, "FalseThreshold": 0})
+        else:
+            p.add_command(lib["Copy"], "Extra", {"InFieldName": e[1]})
+
+    def run_it(p):
+        before = set(os.listdir(work))
+        del _LOG[:]
+        out = None
+        try:
+            with contextlib.redirect_stdout(io.StringIO()), numpy.errstate(all="ignore"):
+                p.run()
+        except MPilotError as exc:
+            out = type(exc).__name__
+        except Exception as exc:
+            out = "raw:" + type(exc).__name__
+        executed = sorted({r for _, r in _LOG})
+        new_files = sorted(set(os.listdir(work)) - before)
+        for f_ in new_files:
+            os.remove(os.path.join(work, f_))
+        return out, executed, new_files
+
+    try:
+        for first in ("run", "run-rejected", "none"):
+            for e in edits():
+                # fresh: edit before the first run
+                pf = Program.from_source(text, libraries=CSV, working_dir=work)
+                try:
+                    apply(pf, e)
+                except MPilotError as exc:
+                    continue
+                want, _, _ = run_it(pf)
+                # history: (run | rejected run | nothing), then the same edit, then run
+                ph = Program.from_source(text, libraries=CSV, working_dir=work)
+                if first == "run":
+                    run_it(ph)
+                elif first == "run-rejected":
+                    ph.add_command(ph.command_library["Copy"], "Tmp", {"InFieldName": "NotThere"})
+                    run_it(ph)
+                    del ph.commands["Tmp"]
+                apply(ph, e)
+                got, executed, new_files = run_it(ph)
+                evals += 2
+                judged += 1
+                tag = {"model": mi, "history": [first, list(e)], "text": text}
+                sample = tag
+                if got != want:
+                    viols.append(V("C12:edited-model:outcome-depends-on-history:%s" % e[0], "after %s + %r the second run() gave %r, a fresh program with the same edit gives %r" % (
+                        first, e, got, want), **tag))
+                elif got in VALIDATION and first != "run" and (executed or new_files):
+                    viols.append(V("C12:edited-model:side-effect-before-reject", "rejected with %s after executing %r" % (got, executed[:3]), **tag))
+                k = "edited:%s:%s" % (e[0], got)
+                outcomes[k] = outcomes.get(k, 0) + 1
+    finally:
+        import shutil
+        shutil.rmtree(work, ignore_errors=True)
+    return {"evals": max(evals, 1), "nontrivial": judged, "judged": judged, "viols": viols[:40], "outcomes": outcomes, "sample": sample}
+
+
 def _run_faults(case):
     _, mi = case
     work = _setup_dir("csv")
@@ -633,4 +730,6 @@ def run(case):
         return _run_pairing(case)
     if case[0] == "shared":
         return _run_shared(case)
+    if case[0] == "edited":
+        return _run_edited(case)
     return _run_faults(case)
